@@ -126,6 +126,9 @@ func (H) Execute(scAny any, cfg simrt.Config, st *core.Stats) (*simrt.Outcome, *
 	if pv := core.OutcomeViolation(out); pv != nil {
 		return out, pv
 	}
+	if out.Truncated && v == nil {
+		return out, core.NoProgress(out)
+	}
 	return out, v
 }
 
